@@ -11,7 +11,7 @@
    algorithm equal to CRC-32/MPEG-2, whence "the CRC of the whole section is zero". *)
 From Gots Require Import Base.Prelude Model.Pts Model.Scte Model.ScteEnc Spec.Scte35Spec
   Proofs.ScteExpected Proofs.ScteLogical Proofs.ScteDecode Proofs.ScteEncode Proofs.ScteRoundtrip Proofs.ScteSetters
-  Proofs.ScteCanonical Proofs.ScteClean Proofs.ScteWitness.
+  Proofs.ScteCanonical Proofs.ScteClean Proofs.ScteWitness Proofs.ScteReflected Proofs.ScteNormalB.
 Import Scte ScteEnc Scte35Spec.
 Local Open Scope N_scope.
 
@@ -170,7 +170,42 @@ Print Assumptions C09_desc_upid_laws.
 Theorem C09_history_inv : forall ops, sig_inv (run_script create_scte35 ops).
 Proof. exact history_inv. Qed.
 Print Assumptions C09_history_inv.
-(* "reflected by the next encoding": C09_encode_canonical says the next encoding is ser_section (logical fs st), and
+(* ... and by the next encoding: the setter keeps a normal state normal (the value is truncated first), so the next
+   UpdateData is the serialisation of the updated field values; shown for the SCTE35-level value setters, the
+   object-level setters (SetCommandInfo / SetDescriptors) need the new object to be normal and to fit *)
+Theorem C09_set_tier_encoded : forall fs st v, normal fs st ->
+  let st' := apply_sig_op st (SSetTier v) in
+  fst (update_data st') = ser_section (logical fs st') /\ si_tier (logical fs st') = v mod 4096.
+Proof. exact set_tier_encoded. Qed.
+Print Assumptions C09_set_tier_encoded.
+Theorem C09_set_adjust_pts_encoded : forall fs st v, normal fs st -> v < 8589934592 ->
+  let st' := apply_sig_op st (SSetAdjustPTS v) in
+  fst (update_data st') = ser_section (logical fs st') /\
+  (cmd_pts (s_cmd st) + si_pts_adj (logical fs st')) mod 8589934592 = v.
+Proof. exact set_adjust_pts_encoded. Qed.
+Print Assumptions C09_set_adjust_pts_encoded.
+Theorem C09_normal_create : normal [] create_scte35.
+Proof. exact normal_create. Qed.
+Print Assumptions C09_normal_create.
+Theorem C09_normal_set_command_info : forall fs st k cops,
+  let c := fold_left (fun c o => apply_cmd_op o c) cops (create_cmd k) in
+  normal fs st -> normal_cmd c -> cmd_pts c < 8589934592 ->
+  13 + len (cmd_data c) + len (s_other st ++ flat_map seg_data (s_descs st)) + 4 + s_stuffing st < 1024 ->
+  normal fs (apply_sig_op st (SSetCommandInfo k cops)).
+Proof. exact normal_set_command_info. Qed.
+Print Assumptions C09_normal_set_command_info.
+Theorem C09_normal_set_descriptors : forall fs st ds, normal fs st ->
+  Forall normal_desc (map (build_desc (s_id st)) ds) ->
+  13 + len (cmd_data (s_cmd st)) + len (s_other st ++ flat_map seg_data (map (build_desc (s_id st)) ds)) + 4 + s_stuffing st < 1024 ->
+  normal fs (apply_sig_op st (SSetDescriptors ds)).
+Proof. exact normal_set_descriptors. Qed.
+Print Assumptions C09_normal_set_descriptors.
+(* `normal` is decidable: the boolean ScteNormalB.normalb is sound; the generator asks it (op scte.isnormal of modelexec)
+   which histories are inside the hypotheses of C09_encode_canonical *)
+Theorem C09_normalb_sound : forall fs st, normalb fs st = true -> normal fs st.
+Proof. exact normalb_ok. Qed.
+Print Assumptions C09_normalb_sound.
+(* in general: C09_encode_canonical says the next encoding is ser_section (logical fs st), and
    logical reads exactly the fields the getters return; so the setter laws above carry over to the bytes whenever
    the resulting state is normal. *)
 
